@@ -51,6 +51,8 @@ def make_config(sc):
            'experiments': {'T': {'suites': ['S'], 'executions': ['E']}}}
     if sc['env']:
         cfg['runs']['env'] = dict(sc['env'])
+    if sc['path'] == 'timeout':
+        cfg['runs']['max_invocation_time'] = 1
     if sc['profiling']:
         cfg['experiments']['T']['action'] = 'profile'
         cfg['executors']['E']['profiler'] = {'perf': {}}
@@ -68,6 +70,8 @@ def make_script(sc):
         k = state['k']
         if sc['path'] == 'failed' and k == 1:
             return drive.Outcome(1, 'no\n')
+        if sc['path'] == 'timeout' and k == 1:
+            return drive.Outcome(hang=True)
         if sc['path'] == 'interrupt' and k == sc.get('at', 2):
             return drive.Outcome(interrupt=True)
         if sc['path'] == 'crash' and k == sc.get('at', 2):
@@ -170,7 +174,8 @@ def check_sessions(ck, scenarios):
         wd = os.path.join(ck.scratch, 'd%d' % _counter[0])
         os.makedirs(wd)
         conf = drive.write_config(wd, make_config(sc))
-        res, events = dd.run_denoise_session(wd, [conf], make_script(sc), sc['report'], cset=sc['cset'],
+        res, events = dd.run_denoise_session(wd, [conf] + (['-p'] if sc['path'] == 'plan' else []),
+                                             make_script(sc), sc['report'], cset=sc['cset'],
                                              num_cores=sc['num_cores'], no_denoise=sc['no_denoise'],
                                              restore_behaviour=sc.get('restore', 'ok'))
         ck.impl_traces += 1
@@ -432,6 +437,11 @@ def gen_scenarios(ck, quick):
                             'no_denoise': False, 'env': rng.choice(ENVS), 'cset': rng.choice([None, '/usr/bin/cset']),
                             'num_cores': rng.choice([1, 2, 4, 8, 64, 4096]), 'at': rng.choice([1, 2, 3]),
                             'restore': rng.choice(['ok', 'ok', 'fails'])})
+    for path in ['plan'] * 4 + (['timeout'] * 6 if not quick else []):
+        out.append({'kind': 'session', 'report': rng.choice([r for r in reps if r['kind'] == 'json']), 'path': path,
+                    'profiling': False, 'no_denoise': False, 'env': rng.choice(ENVS),
+                    'cset': rng.choice([None, '/usr/bin/cset']), 'num_cores': rng.choice([1, 4, 64]), 'at': 2,
+                    'restore': 'ok'})
     for path in PATHS:
         for profiling in (False, True):
             out.append({'kind': 'session', 'report': rng.choice(reps), 'path': path, 'profiling': profiling,
